@@ -389,6 +389,12 @@ def answer (kind : String) (payload : List Sx) : String :=
     let bit := fun (x : Bool) => if x then "1" else "0"
     "(cmp2 " ++ bit (Value.eq va vb) ++ " " ++ bit (Value.eq vb va) ++ " " ++ encOrd (Value.partialCmp va vb)
       ++ " " ++ encOrd (Value.partialCmp vb va) ++ ")"
+  | "history", (c :: es) =>
+    -- the model's evaluator is a function: every execution of a history sees the same context
+    let ctx := decCtx c
+    "(history" ++ String.join (es.map (fun e =>
+      let (o, st) := execute ctx (decExpr e)
+      " (res " ++ encOutcome encValue o ++ " " ++ encLog st.log ++ ")")) ++ " pure)"
   | "evalpair", [c, e1, e2] =>
     let ctx := decCtx c
     let (o1, st1) := execute ctx (decExpr e1)
